@@ -140,6 +140,31 @@ func main() {
 							}
 							pg.AddV2(k.n)
 							pg.AddV2(k.p)
+							if f == fs[0] {
+								// history: read the vertices of the still open polygon first, then close it: the
+								// result must be that of the polygon built and closed without the intermediate read,
+								// and reading twice must not change it
+								hg := sdf.NewPolygon()
+								hv := hg.AddV2(k.v)
+								if chamfer {
+									hv.Chamfer(r0)
+								} else {
+									hv.Smooth(r0, f)
+								}
+								hg.AddV2(k.n)
+								hg.AddV2(k.p)
+								_ = hg.Vertices()
+								hg.Close()
+								pg.Close()
+								a, b2, b3 := pg.Vertices(), hg.Vertices(), hg.Vertices()
+								same := len(a) == len(b2) && len(a) == len(b3)
+								for q := 0; same && q < len(a); q++ {
+									same = a[q] == b2[q] && a[q] == b3[q]
+								}
+								if !same {
+									c.Violation("Polygon.Vertices|depends-on-earlier-calls(Vertices,Close,Vertices)", fmt.Sprintf("corner %v radius %g: closed polygon gives %d vertices, the same polygon read once before Close() gives %d, read again %d", k, r0, len(a), len(b2), len(b3)), desc)
+								}
+							}
 							pg.Close()
 							out := pg.Vertices()
 							// rotate so that the list reads prev, (fillet...), next
